@@ -3,6 +3,12 @@ use star_frame::account_set::{CanCloseAccount as _, TryFromAccounts as _};
 use star_frame::prelude::*;
 use vh::*;
 
+/// build / open the owned value of the harness account types (one `list: Vec<u8>` field)
+pub trait ClientVal: UnsizedType {
+    fn mk(v: Vec<u8>) -> Self::Owned;
+    fn get(o: Self::Owned) -> Vec<u8>;
+}
+
 macro_rules! prog {
     ($m:ident, $p:ident, $a:ident, $dt:ty, $idb:expr, $disc:expr) => {
         pub mod $m {
@@ -15,6 +21,15 @@ macro_rules! prog {
         pub struct $a {
             #[unsized_start]
             pub list: List<u8>,
+        }
+        impl super::ClientVal for $a {
+            fn mk(v: Vec<u8>) -> <Self as UnsizedType>::Owned {
+                type O = <$a as UnsizedType>::Owned;
+                O { list: v }
+            }
+            fn get(o: <Self as UnsizedType>::Owned) -> Vec<u8> {
+                o.list
+            }
         }
         }
         pub use $m::{$p, $a};
@@ -97,11 +112,74 @@ where
     out
 }
 
+/// C05, stage `client`: the client-side account helpers on the same account types.
+/// case: w d(w) n value(n) len data(len)   observation: serialized length, bytes, then 1 (rejected) | 0 count items
+fn run_client<T>(c: &[i128]) -> Vec<i128>
+where
+    T: ProgramAccount + UnsizedType + star_frame::unsize::FromOwned + ClientVal + 'static,
+{
+    use star_frame::client::{DeserializeAccount as _, SerializeAccount as _};
+    let w = c[0] as usize;
+    let d: Vec<u8> = c[1..1 + w].iter().map(|x| *x as u8).collect();
+    if d != T::discriminant_bytes() {
+        return vec![-1];
+    }
+    let n = c[1 + w] as usize;
+    let value: Vec<u8> = c[2 + w..2 + w + n].iter().map(|x| *x as u8).collect();
+    let len = c[2 + w + n] as usize;
+    let data: Vec<u8> = c[3 + w + n..3 + w + n + len].iter().map(|x| *x as u8).collect();
+    let mut out = vec![];
+    match guarded(|| T::serialize_account(T::mk(value))) {
+        Ok(Ok(bytes)) => {
+            out.push(bytes.len() as i128);
+            out.extend(bytes.iter().map(|b| *b as i128));
+        }
+        Ok(Err(_)) => return vec![-7],
+        Err(()) => return vec![-9],
+    }
+    match guarded(|| T::deserialize_account(&data)) {
+        Ok(Ok(v)) => {
+            let v: Vec<u8> = T::get(v);
+            out.push(0);
+            out.push(v.len() as i128);
+            out.extend(v.iter().map(|b| *b as i128));
+        }
+        Ok(Err(_)) => out.push(1),
+        Err(()) => out.push(2),
+    }
+    out
+}
+
 fn main() {
     quiet_panics();
     let args: Vec<String> = std::env::args().collect();
     let cases = read_cases(&args[1]);
     let mut o = Out::new();
+    if args.len() > 2 && args[2] == "client" {
+        for (id, c) in &cases {
+            let w = c[0] as usize;
+            let all_ff = w > 0 && c[1..1 + w].iter().all(|b| *b == 255);
+            let obs = match c[0] {
+                1 if all_ff => run_client::<A1F>(c),
+                2 if all_ff => run_client::<A2F>(c),
+                8 if all_ff => run_client::<A8F>(c),
+                8 if c[1] == 255 => run_client::<A8L>(c),
+                0 => run_client::<A0>(c),
+                1 => run_client::<A1>(c),
+                2 => run_client::<A2>(c),
+                3 => run_client::<A3>(c),
+                4 => run_client::<A4>(c),
+                8 => run_client::<A8>(c),
+                12 => run_client::<A12>(c),
+                16 => run_client::<A16>(c),
+                24 => run_client::<A24>(c),
+                _ => vec![-2],
+            };
+            o.line(id, &obs);
+        }
+        o.flush();
+        return;
+    }
     for (id, c) in &cases {
         let w = c[0] as usize;
         let all_ff = w > 0 && c.len() > w && c[1..1 + w].iter().all(|b| *b == 255);
